@@ -267,13 +267,17 @@ def toUnitless (v : Val α) (newUnit : PyVal α) : Except Err (Res α) :=
     | .error e => .error e
   | .str => .error .valueError
   | .ndarray xs =>
-    -- units.py 371-374: `if is_unitless(new_unit) and new_unit == 1 and value.dtype != object: return value`.
-    -- NOTE `new_unit == 1` compares the bare magnitude: True for EVERY dimensionless unit of magnitude 1 (km/m, cm/m, …),
-    -- whose scale factor is then ignored.  Otherwise element-wise.
-    if isUnitlessScalar newUnit && newUnit.eqOne then .ok (.list (xs.map .num))
-    else match toUnitlessFlat (xs.map .num) newUnit with
+    -- units.py 372-380 (after fix 005cbe4):
+    -- `if is_unitless(new_unit) and rescale(new_unit, pq.dimensionless) == 1 and value.dtype != object: return value`,
+    -- otherwise element-wise.  (`== 1` on the rescaled unit compares its magnitude, i.e. the SI value of `new_unit`.)
+    let elementwise : Except Err (Res α) := match toUnitlessFlat (xs.map .num) newUnit with
       | .ok ys => .ok (.list (ys.map .num))
       | .error e => .error e
+    if isUnitlessScalar newUnit then
+      match rescale newUnit (.qty Quantity.dimensionless) with
+      | .error e => .error e
+      | .ok r => if r.eqOne then .ok (.list (xs.map .num)) else elementwise
+    else elementwise
   | .list l => match toUnitlessList l newUnit with
     | .ok r => .ok (.list r)
     | .error e => .error e
